@@ -112,12 +112,15 @@ def render_strings(k, it: Item, meta, cfg, extra_derives=(), strum_path="strum")
         arms["fromstr"] = '''
             let s = unhex_str(args[0]);
             let _ = take_log();
+            let _ = take_convs();
             let a = match <%(ty)s as std::str::FromStr>::from_str(&s) { Ok(e) => vobs(&e), Err(e) => ErrObs::eobs(&e) };
             let la = take_log();
+            let ca = take_convs();
             let b = match <%(ty)s as std::convert::TryFrom<&str>>::try_from(&s) { Ok(e) => vobs(&e), Err(e) => ErrObs::eobs(&e) };
             let lb = take_log();
-            format!("fs={}|tf={}|errty={}/{}|log={}/{}", a, b,
-                <<%(ty)s as std::str::FromStr>::Err as ErrObs>::TY, <<%(ty)s as std::convert::TryFrom<&str>>::Error as ErrObs>::TY, la, lb)
+            let cb = take_convs();
+            format!("fs={}|tf={}|errty={}/{}|log={}/{}|conv={}/{}", a, b,
+                <<%(ty)s as std::str::FromStr>::Err as ErrObs>::TY, <<%(ty)s as std::convert::TryFrom<&str>>::Error as ErrObs>::TY, la, lb, ca, cb)
         ''' % {"ty": ty}
 
     # inner-field observers for single-field variants
@@ -131,7 +134,7 @@ def render_strings(k, it: Item, meta, cfg, extra_derives=(), strum_path="strum")
         lines.append("    }")
         lines.append("}")
         return "\n".join(lines)
-    displayable = lambda f: f.ty in RR.SAMPLE and f.ty != "Option<u8>"   # noqa: E731
+    displayable = lambda f: f.ty in RR.SAMPLE and RR.SAMPLE[f.ty][1] is not None   # noqa: E731
     src.append(inner_fn("inner_display", lambda b: "xs(&fmt_with(%s, fill, align, w, p))" % b, displayable))
     src.append(inner_fn("inner_asref", lambda b: "xs(AsRef::<str>::as_ref(%s))" % b, lambda f: RR.is_string_ty(f.ty)))
 
@@ -354,6 +357,12 @@ def compare_strings(corpus, k, kind, args, note, iobs, mobs, cfg):
             ok = ok and io.get("log") == "%s/%s" % (want, want)
         else:
             ok = ok and io.get("log") == "/"
+        # the input is converted into the catch-all variant's payload only when that variant is what is returned (counted for `Wrap` payloads)
+        wrap_default = any(v.has("default") and v.fields and v.fields[0].ty == "Wrap" for v in it.variants)
+        captured = mo["fs"].endswith("(in)")
+        want_conv = "1/1" if (captured and wrap_default) else "0/0"
+        if io.get("conv") != want_conv:
+            return False, True, "conversions of the input into the catch-all payload: %s, expected %s" % (io.get("conv"), want_conv)
         nt = not mo["fs"].startswith("err:") or (note or "").startswith("near")
         return ok, nt, None
     if kind in ("display", "asref", "tostring", "asstatic"):
